@@ -317,7 +317,8 @@ def run_uts(sc):
                                              exploring_starts=sc["warm"], progress_bar=False, logger=logger))
     # "exploring_starts: number of random exploration steps at the beginning of training"; total_timesteps: "number
     # of total environment steps to train for".  ulpk: SAC samples mean + std*noise without clipping (its own matter).
-    cfg = _sched_cfg("uts", sc, explore_only_in_warmup=True, ulpk=0, trained=["policy", "q"], targets=["q_target"], rules=[])
+    cfg = _sched_cfg("uts", sc, check_bounds=False,  # coordinator: the single-task learner here is SAC, which C10 does not name
+                      explore_only_in_warmup=True, ulpk=0, trained=["policy", "q"], targets=["q_target"], rules=[])
     ret = None if res is None else getattr(res, "global_step", None)
     return finish(rec, "uts", sc, cfg, returned=ret, final=final_digests(policy=policy, q=q, q_target=qtgt), error=err)
 
